@@ -24,10 +24,25 @@ class EasCtx:
         if self.res.value is None or I.seq_len(self.res.value) != 2:
             raise AnalysisError("EAS.__call__ does not return a pair")
         runs = [c for c in I.call_log if c[0].qualname == "CphotAng.run"]
-        if len(runs) != 1:
-            raise AnalysisError(f"expected the per-event kernel to be reached once from EAS.__call__, got {len(runs)}")
+        if not runs:
+            raise AnalysisError("the per-event kernel is not reached from EAS.__call__")
+        g = I.g
+        for other in runs[1:]:
+            # several evaluation paths (e.g. a sequential fast path) are fine as long as they are the same call
+            same = other[0] is runs[0][0] and set(other[2]) == set(runs[0][2]) and all(
+                g.same(other[2][k], runs[0][2][k]) for k in runs[0][2])
+            if not same:
+                raise AnalysisError(f"the per-event kernel is reached {len(runs)} times from EAS.__call__ with "
+                                    "different arguments")
         self.kernel_call = runs[0]
         self.kernel_ret = runs[0][3]
+        self.kernel_runs = runs
+
+    def kernel_inner(self, qualname):
+        """logged calls of `qualname` made inside the first kernel invocation (callees are logged before callers)"""
+        log = self.I.call_log
+        end = next(i for i, c in enumerate(log) if c is self.kernel_call)
+        return [c for c in log[:end] if c[0].qualname == qualname]
 
 
 class KernelCtx:
